@@ -41,7 +41,7 @@ P_DATA = {"bytes": [0]}
 
 KINDS = ("cccc", "cdcc", "ccdc", "cccd", "dccc")
 FUNCS = (("f", "f", "f", "f"), ("f", "g", "g", "h"), (None, "f", "f", None))
-LABELS = ((), ("A",), ("B",), ("D",), ("B", "C"), ("A", "B"), ("+B",))
+LABELS = ((), ("A",), ("B",), ("D",), ("B", "C"), ("A", "B"), ("+B",), ("+A", "-B"), ("+B", "A", "-C"))
 
 
 def make_spec(kinds, funcs, labs, last_ret=True):
@@ -60,6 +60,8 @@ def make_spec(kinds, funcs, labs, last_ret=True):
             b["le"] = ["E_" + name]
         if "+" + name in labs:
             b["ls"] = ["S2_" + name]
+        if "-" + name in labs:
+            b["anon"] = True  # a block nothing labels
         blocks.append(b)
     return scen.spec_of(blocks)
 
